@@ -39,7 +39,7 @@ func c19Cfg(maxOps, maxArgs int, variant string, emit bool) string {
   EmitHist = %s
 INIT Init
 NEXT Next
-INVARIANTS TypeOK ContentIsModel ArgsIntact NoRetention Emit
+INVARIANTS TypeOK ContentIsModel ArgsIntact NoRetention AllStable Emit
 CHECK_DEADLOCK FALSE
 `, maxOps, maxArgs, map[bool]string{true: "{0}", false: "{0, 1}"}[emit], variant, tlaBool(emit))
 	if !emit {
@@ -63,18 +63,22 @@ func checkC19(c *Ctx) {
 	}
 	c.TLC(mc)
 	c.Set("mc_bounds", fmt.Sprintf("MaxOps=%d MaxArgs=2 Lens={0,1,2} Spares={0,2} growth extra∈{0,1}", mcOps))
-	c.Set("mc_invariants", []string{"TypeOK", "ContentIsModel", "ArgsIntact", "NoRetention"})
+	c.Set("mc_invariants", []string{"TypeOK", "ContentIsModel", "ArgsIntact", "NoRetention", "AllStable"})
 	c.Set("exhaustive", true)
 
 	// the invariants are not vacuous: each wrong transcription is caught by TLC
-	for _, v := range []string{"prepend-nocopy", "replace-nocopy", "append-arg-first"} {
-		r, err := RunTLC(TLCRun{Module: "Decorations", Cfg: c19Cfg(4, 2, v, false), Workers: 4, Timeout: 5 * time.Minute})
+	for _, v := range []string{"prepend-nocopy", "replace-nocopy", "append-arg-first", "replace-inplace"} {
+		ops := 4
+		if v == "replace-inplace" {
+			ops = 5 // NewArg, Append, All, CallerMutate, Replace
+		}
+		r, err := RunTLC(TLCRun{Module: "Decorations", Cfg: c19Cfg(ops, 2, v, false), Workers: 4, Timeout: 5 * time.Minute})
 		if err != nil || r.Violated == "" {
 			c.Infra("TLC did not reject variant " + v + ": " + errText(r, err))
 			return
 		}
 	}
-	c.Set("spec_variants_rejected_by_tlc", 3)
+	c.Set("spec_variants_rejected_by_tlc", 4)
 
 	// (R) every behaviour of length genOps, emitted by TLC, replayed on the real type
 	gen, err := RunTLC(TLCRun{Module: "Decorations", Cfg: c19Cfg(genOps, 2, "code", true), Workers: 8, Timeout: 20 * time.Minute})
@@ -192,6 +196,7 @@ func c19Replay(steps []c19Step) (string, []string) {
 		}
 		return args[i-1]
 	}
+	var snap, snapWas []string
 	for si, s := range steps {
 		switch s.Op {
 		case "NewArg":
@@ -224,6 +229,10 @@ func c19Replay(steps []c19Step) (string, []string) {
 			}
 		case "Clear":
 			d.Clear()
+		case "All":
+			// the caller keeps what All() returned
+			snap = d.All()
+			snapWas = append([]string{}, snap...)
 		case "CallerMutate":
 			args[s.Arg-1][s.Idx-1] = val()
 		case "CallerGrow":
@@ -234,6 +243,10 @@ func c19Replay(steps []c19Step) (string, []string) {
 			}
 		default:
 			return "harness: unknown op " + s.Op, nil
+		}
+		// P: a result of All() obtained earlier keeps showing what it showed
+		if snap != nil && !sameStrings(snap, snapWas) {
+			return fmt.Sprintf("step %d %s: the slice an earlier All() returned now reads %q, it read %q when it was returned", si+1, compactOps(steps[si : si+1])[0], snap, snapWas), nil
 		}
 		// P: content equals the plain list
 		got := d.All()
